@@ -46,7 +46,8 @@ InitState(h) ==
    win |-> NoWin, stop |-> {}, stopAt |-> 0, lastSite |-> "NONE",
    ncb |-> 0, cbRaised |-> FALSE, cbX |-> <<>>,
    nit |-> 0, resol |-> NaN, nEnh |-> 0, done |-> FALSE,
-   lastXin |-> <<>>, lastOut0 |-> NaN, conX |-> [j \in 1..h.ncon |-> <<>>]]
+   lastXin |-> <<>>, lastOut0 |-> NaN, conX |-> [j \in 1..h.ncon |-> <<>>],
+   initX |-> <<>>, initOut |-> <<>>]
 
 StopStatus(r) == CASE r = "target" -> 1 [] r = "feasible" -> 4 [] r = "callback" -> 3
 
@@ -96,7 +97,9 @@ Step(h, st, ev) ==
                          !.win = NoWin, !.lastSite = ev.site,
                          !.stop = @ \cup trg,
                          !.stopAt = IF trg # {} /\ st.stop = {} THEN n1 ELSE @,
-                         !.lastOut0 = IF Len(ev.out) > 0 THEN ev.out[1] ELSE NaN]
+                         !.lastOut0 = IF Len(ev.out) > 0 THEN ev.out[1] ELSE NaN,
+                         !.initX = IF ev.site = "INIT" THEN Append(@, st.lastXin) ELSE @,
+                         !.initOut = IF ev.site = "INIT" /\ Len(ev.out) > 0 THEN Append(@, ev.out[1]) ELSE @]
     [] ev.e = "It" -> [st EXCEPT !.nit = @ + 1,
                                  !.resol = IF "resol" \in DOMAIN ev THEN ev.resol ELSE @]
     [] ev.e = "Init" -> [st EXCEPT !.resol = ev.resol]
@@ -191,6 +194,10 @@ FailTR(h, st, ev) ==
             Sel(ev.best = 0 \/ ev.k # ev.best, "C18.replace")
        \cup Sel(ev.exc # "none" \/ (ev.frec = ev.fval /\ ev.fval = st.lastOut0
                                     /\ SamePoint(ev.x, st.lastXin)), "C12.recorded")
+    [] ev.e = "MInit" ->   \* the initial interpolation set: slot k holds the k-th sampled point and its value
+            Sel(/\ Len(ev.pts) = Len(st.initX) /\ Len(ev.fvals) = Len(st.initOut)
+                /\ \A k \in DOMAIN ev.pts : SamePoint(ev.pts[k], st.initX[k]) /\ ev.fvals[k] = st.initOut[k],
+                "C12.initial")
     [] ev.e = "Geo" -> Sel(ev.k # ev.best, "C18.replace")
     [] ev.e = "Interp" ->
             Sel(ev.illskip \/ \A m \in DOMAIN ev.resid : Le(ev.resid[m], ev.tol[m]),
